@@ -14,8 +14,11 @@ ASSUMPTIONS = [
     'the completion flag of a join() call is identified by (joiner, target, number of the registration); shared_ptr / thread_id_ref lifetimes are not modelled (read: the callback owns a copy of both)',
 ]
 
-N = {'quick': dict(seq=1000, race=4000, f13=2000, jthr=600, intr=300, rejoin=300),
-     'thorough': dict(seq=6000, race=30000, f13=12000, jthr=4000, intr=2000, rejoin=3000)}
+N = {'quick': dict(seq=1000, race=4000, f13=2000, jthr=600, intr=300, rejoin=300, jmove=1500),
+     'thorough': dict(seq=6000, race=30000, f13=12000, jthr=4000, intr=2000, rejoin=3000, jmove=12000)}
+
+
+LATE_ABORT_KEY = 'C13:rejoin:late_abort_wakeup_throws_yield_aborted'
 
 
 def kv(line):
@@ -42,6 +45,17 @@ def run_mode(ctx, r, h, drv, mode, seed, n, timeout):
         r.evaluations += 1
         return
     for x in hang:
+        if mode == 'rejoin' and 'yield returned wait_abort' in out:
+            # observed ~1 per 3000 rejoin cases on the unchanged tree: the joiner thread was ended by yield_aborted
+            r.hits.append(Hit('monitor', LATE_ABORT_KEY,
+                              'a joiner that had caught thread_interrupted (delivered at an interruption point) and called join() again was ended by '
+                              'pika::exception yield_aborted: the wake-up of that same interrupt() (set_thread_state(pending, wait_abort), issued while the '
+                              'joiner was still active and therefore retried later) reached the NEXT suspension, whose interruption point finds the request '
+                              'already consumed, so execution_agent::do_yield throws yield_aborted instead of thread_interrupted; it escapes the '
+                              'catch (thread_interrupted) handler, the runtime ends the thread function ("aborted thread execution") and the harness waits '
+                              'for the joiner in vain (watchdog 30 s): %s | %s' % (x, [l for l in lines if 'wait_abort' in l][-1][:200]),
+                              dict(rep, case=x)))
+            continue
         r.hits.append(Hit('monitor', 'C13:%s:hang' % mode,
                           'a join / jthread destructor / interrupted thread did not finish within the watchdog bound (30 s): %s' % x,
                           dict(rep, case=x)))
@@ -177,6 +191,59 @@ def run_mode(ctx, r, h, drv, mode, seed, n, timeout):
             r.sample({'mode': mode, 'input': s[0], 'observed': s[1]})
 
 
+# sequential specification of the handle state after a move (the clauses c13_jmove evaluates; Model/Join.v has a static
+# handle -> target map and cannot express a move, so this part is a monitor and not a DIFF against the model)
+def run_jmove(ctx, r, h, workers, seed, n, timeout, only=None):
+    args = [str(workers), str(seed), str(n)] + ([str(only)] if only is not None else [])
+    rc, out = sh([h] + args, timeout=timeout)
+    lines = out.split('\n')
+    ins = [x for x in lines if x.startswith('IN JM ')]
+    outs = [x for x in lines if x.startswith('OUT JM ')]
+    inmap = {x.split(' ')[2]: x for x in ins}
+    ended = any(x.startswith('END JM') for x in lines) or any(x.startswith('NOTE JM stopped') for x in lines)
+    for o_ in outs:
+        cid = o_.split(' ')[2]
+        i_ = inmap.get(cid, '')
+        fi = kv(i_) if i_ else {}
+        f = kv(o_)
+        kind = fi.get('kind', 'x')
+        rep = {'harness': 'c13_jmove', 'args': [workers, seed, n, int(cid)], 'case': i_, 'observed': o_}
+        r.evaluations += 1
+        r.count('jmove:workers=%s:kind=%s:when=%s' % (fi.get('workers'), kind, fi.get('when')))
+        if kind != 'none':
+            r.nontrivial('jmove:%s:%d:%s' % (workers, seed, i_))
+        threads = [('', 'the thread')] + ([('2', 'the second thread (owned by the other handle of the swap)')] if 'possible2' in f else [])
+        for sfx, who in threads:
+            if f.get('possible' + sfx) != '1' or f.get('saw' + sfx) != '1' or f.get('dtor_returned') != '1':
+                r.hits.append(Hit('monitor', 'C13:jthread:stop_not_seen_after_move:%s' % kind,
+                                  'a jthread whose handle was moved (%s, %s after construction, %s workers) and whose final owner was destroyed: %s function saw '
+                                  'stop_possible()=%s on its token at its first statement, stop_requested()=%s when it left its wait, the destructor %s: %s'
+                                  % (kind, fi.get('when'), fi.get('workers'), who, f.get('possible' + sfx), f.get('saw' + sfx),
+                                     'returned' if f.get('dtor_returned') == '1' else 'did NOT return within 10 s (function released by the give-up flag)', o_), rep))
+                break
+        if f.get('dtor_returned') == '1' and (f.get('finished_at_return') != '1' or f.get('finished_at_return2', '1') != '1'):
+            r.hits.append(Hit('monitor', 'C13:jthread:dtor_returned_before_body_finished:after_move:%s' % kind,
+                              '~jthread of the final owner returned while the thread function was still running: %s' % o_, rep))
+        api = f.get('api', 'ok')
+        if f.get('early') == '1' or f.get('early2', '0') == '1' or f.get('other_stopped_early', '0') == '1' or 'stop_requested_before_destruction' in api:
+            r.hits.append(Hit('monitor', 'C13:jthread:stop_before_owner_destroyed:%s' % kind,
+                              'stop was requested on a running jthread although the handle that owns it had not been destroyed (destruction of a moved-from '
+                              'handle / of the other handle of a swap must not stop it): %s' % o_, rep))
+        api_other = [x for x in api.split(',') if x != 'ok' and 'stop_requested_before_destruction' not in x]
+        if api_other:
+            r.hits.append(Hit('monitor', 'C13:jthread:move_api:%s' % kind,
+                              'handle state after the move differs from the sequential spec (moved-from: not joinable, id(), source without state; '
+                              'owner: joinable, same id, same token): violated %s: %s' % (','.join(api_other), o_), rep))
+    dead = [x for x in ins if x.split(' ')[2] not in set(o.split(' ')[2] for o in outs)]
+    if dead or not ended:
+        i_ = dead[-1] if dead else (ins[-1] if ins else '')
+        r.hits.append(Hit('monitor' if ins else 'tie', 'C13:jmove:crash',
+                          'the runtime crashed or the harness died (rc=%d) in a jthread move case [%s]: %s' % (rc, i_, ' | '.join(lines[-5:])[-400:]),
+                          {'harness': 'c13_jmove', 'args': [workers, seed, n] + ([int(i_.split(' ')[2])] if i_ else []), 'case': i_}))
+    for s_ in list(zip(ins, outs))[:1]:
+        r.sample({'mode': 'jmove', 'input': s_[0], 'observed': s_[1]})
+
+
 def run(ctx):
     r = Result()
     r.rule = ('real runtime, 4 workers; seq: generated operation histories (join/detach/joinable on 1-3 handles incl. '
@@ -186,13 +253,23 @@ def run(ctx):
               'must be an execution of the model (acceptor); f13: the joiner just left a notified timed wait; jthr: ~jthread; intr: interruption '
               'scenarios; rejoin: a joiner interrupted inside join() catches thread_interrupted and joins again (variant 0: second registration '
               'forced between the target\'s callback invocation and its removal from the list by hand-shakes in the hooks; 1: before the target exits; '
-              '2: free running with seeded delays). non-trivial = callback accepted (join had to wait) or any seq/jthr/intr case; distinct = distinct (mode,seed,case,events)')
+              '2: free running with seeded delays). jmove (harness/c13_jmove.cpp, 1 and 4 workers): a jthread whose function takes a stop_token and '
+              'waits for it (poll+yield / condition_variable_any::wait(lock, token, pred) / stop_callback); the handle is moved (move ctor, move assign '
+              'into an empty jthread, vector push_back + reallocation, swap with an empty / with another running jthread, return by value, '
+              'ctor->heap->assign chain) immediately after construction or after the function started; the final owner is destroyed; monitors: '
+              'token stop_possible at the first statement, stop seen, destructor returns (10 s watchdog) after the function finished, no stop before the '
+              'owner dies, handle state after the move = sequential spec. non-trivial = callback accepted (join had to wait) or any seq/jthr/intr case; distinct = distinct (mode,seed,case,events)')
     ctx.build_pika()
     drv = ctx.build_model('C13', 'ExtractC13.v', 'drv_c13.ml')
     h = ctx.build_harness('c13_join', 'c13_join.cpp')
+    hjm = ctx.build_harness('c13_jmove', 'c13_jmove.cpp')
     if ctx.replay:
         try:
             rp = json.load(open(ctx.replay)).get('replay', {})
+            if rp.get('harness') == 'c13_jmove':
+                a = rp.get('args', [4, ctx.seed, 100])
+                run_jmove(ctx, r, hjm, int(a[0]), int(a[1]), int(a[2]), 300, only=(int(a[3]) if len(a) > 3 else None))
+                return r
             mode, seed, n = rp.get('args', ['race', ctx.seed, 200])
             run_mode(ctx, r, h, drv, mode, int(seed), int(n), 600)
             return r
@@ -204,6 +281,10 @@ def run(ctx):
     for sd in seeds:
         for mode in ('seq', 'race', 'f13', 'jthr', 'intr', 'rejoin'):
             run_mode(ctx, r, h, drv, mode, sd, n[mode], to)
+        # jthread handle moves (move ctor / move assign into an empty jthread / vector / swap / return / heap), immediately after
+        # construction and later, with 1 worker (the creator always wins) and with 4
+        for workers in (1, 4):
+            run_jmove(ctx, r, hjm, workers, sd, n['jmove'], to)
     run_mode(ctx, r, h, drv, 'intry', ctx.seed, 1, 60)
     r.notes.append('E4 (run_thread_exit_callbacks popped the front after invoking it unlocked: a callback pushed meanwhile was dropped and the '
                    'invoked one ran twice) is repaired (callback moved out of the list under the lock); reachable through the public API by a joiner that '
